@@ -248,6 +248,8 @@ func writeResponse(res *promql.Result, w http.ResponseWriter) error {
 		err = writeVector(res, w)
 	case promql.Scalar:
 		err = writeScalar(res, w)
+	case promql.String:
+		err = writeString(res, w)
 	}
 
 	if err != nil {
@@ -255,6 +257,18 @@ func writeResponse(res *promql.Result, w http.ResponseWriter) error {
 	}
 
 	w.Write([]byte("]}}"))
+	return nil
+}
+
+func writeString(res *promql.Result, w http.ResponseWriter) error {
+	val := res.Value.(promql.String)
+	json := jsoniter.ConfigFastest
+	stream := json.BorrowStream(nil)
+	defer json.ReturnStream(stream)
+	stream.WriteFloat64(float64(val.T) / 1000)
+	stream.WriteMore()
+	stream.WriteString(val.V)
+	w.Write(stream.Buffer())
 	return nil
 }
 
